@@ -129,7 +129,41 @@ pub fn gen_scene(r: &mut Rng, q: &Joints) -> SceneSpec {
     }
     let mode = *r.pick(&[CheckMode::AllCollsions, CheckMode::AllCollsions, CheckMode::FirstCollisionOnly, CheckMode::NoCheck]);
     let (sfam, safety) = gen_safety(r, env_len, has_tool, has_base, mode);
-    let fam = format!("{}/env{}{}{}", sfam, env_len, if has_tool { "/tool" } else { "" }, if has_base { "/base" } else { "" });
+    let mut fam = format!("{}/env{}{}{}", sfam, env_len, if has_tool { "/tool" } else { "" }, if has_base { "/base" } else { "" });
+    let mut joint_meshes = joint_meshes;
+    let mut base = base;
+    let mut safety = safety;
+    // directed family: bodies that really intersect, with exemptions (and decoy keys) on exactly those pairs
+    if r.chance(0.3) {
+        fam.push_str("/exempt-actual");
+        let l32 = links.map(|p| iso32(&p));
+        if has_tool && has_base && r.chance(0.5) {
+            // the base body sits where the tool is
+            let off = Isometry3::translation(r.range(-0.01, 0.01) as f32, r.range(-0.01, 0.01) as f32, r.range(-0.01, 0.01) as f32);
+            base = Some(BaseBody { mesh: rand_mesh(r, 0.06), base_pose: l32[5] * off });
+        }
+        if has_tool && r.chance(0.5) {
+            // an upstream link (J1..J4) whose mesh reaches the tool
+            let i = r.below(4);
+            let c = l32[i].inverse() * l32[5].translation.vector;
+            joint_meshes[i] = box_mesh([0.04, 0.05, 0.03], [c.x, c.y, c.z], r.chance(0.5));
+        }
+        // which relevant pairs touch now (touch-only, all collisions)
+        let probe = RobotBody { joint_meshes: joint_meshes.clone(), tool: tool.clone(), base: base.as_ref().map(|b| BaseBody { mesh: b.mesh.clone(), base_pose: b.base_pose }),
+            collision_environment: env.iter().map(|e| CollisionBody { mesh: e.mesh.clone(), pose: e.pose }).collect(),
+            safety: SafetyDistances::standard(CheckMode::AllCollsions) };
+        let hits = probe.collision_details(q, kin.as_ref());
+        for (a, b) in hits {
+            let (a, b) = (a as u16, b as u16);
+            let has = |s: &SafetyDistances, x: u16, y: u16| s.special_distances.contains_key(&(x, y)) || s.special_distances.contains_key(&(y, x));
+            // a key naming joint 6 says nothing about the tool mounted on it
+            if b as usize == J_TOOL && (a as usize) < 4 && r.chance(0.6) && !has(&safety, a, 5) { safety.special_distances.insert((a, 5), NEVER_COLLIDES); }
+            if a as usize == J_TOOL && (b as usize) < 4 && r.chance(0.6) && !has(&safety, b, 5) { safety.special_distances.insert((b, 5), NEVER_COLLIDES); }
+            if r.chance(0.5) && !has(&safety, a, b) {
+                if r.chance(0.5) { safety.special_distances.insert((a, b), NEVER_COLLIDES); } else { safety.special_distances.insert((b, a), NEVER_COLLIDES); }
+            }
+        }
+    }
     SceneSpec { ks, body: RobotBody { joint_meshes, tool, base, collision_environment: env, safety }, fam }
 }
 
@@ -186,14 +220,19 @@ fn in_pool<T: Send>(n: usize, f: impl FnOnce() -> T + Send) -> T {
 
 pub fn c10(seed: u64, n: usize) {
     let mut r = Rng::new(seed ^ 0xC10);
+    coll_cases("C10", &mut r, n);
+}
+
+/// scenes with the oracle table (direct parry3d calls on every pair), each under four pool sizes
+pub fn coll_cases(prop: &str, r: &mut Rng, n: usize) {
     for _ in 0..n {
-        let q = rand_joints(&mut r, PI);
-        let sc = gen_scene(&mut r, &q);
+        let q = rand_joints(r, PI);
+        let sc = gen_scene(r, &q);
         let kin = sc.ks.build();
         let omode = *r.pick(&[CheckMode::AllCollsions, CheckMode::FirstCollisionOnly, CheckMode::NoCheck]);
-        let (_, other) = gen_safety(&mut r, sc.body.collision_environment.len(), sc.body.tool.is_some(), sc.body.base.is_some(), omode);
+        let (_, other) = gen_safety(r, sc.body.collision_environment.len(), sc.body.tool.is_some(), sc.body.base.is_some(), omode);
         for pool in [1usize, 2, 4, 16] {
-            let mut l = Line::new("C10", &sc.fam, "coll");
+            let mut l = Line::new(prop, &sc.fam, "coll");
             sc.ks.encode(&mut l);
             l.j6(&q).b(sc.body.tool.is_some()).b(sc.body.base.is_some()).n(sc.body.collision_environment.len());
             enc_safety(&mut l, &sc.body.safety);
@@ -221,7 +260,7 @@ pub fn c14(seed: u64, n: usize) {
         tries += 1;
         let q = rand_joints(&mut r, 2.0);
         let mut sc = gen_scene(&mut r, &q);
-        if sc.body.safety.mode == CheckMode::NoCheck { sc.body.safety.mode = CheckMode::FirstCollisionOnly; }
+        // in no-check mode the robot reports everything free, so every legal candidate has to be offered (D21)
         // half of the scenes: a long rod as tool and a bulky upstream link, so that a moved joint swings the tool into a
         // link that did not move
         if r.chance(0.5) {
@@ -245,6 +284,8 @@ pub fn c14(seed: u64, n: usize) {
         done += 1;
         let mut from = q; let mut to = q;
         for k in 0..6 { from[k] = q[k] - *r.pick(&[0.05, 0.2, 0.6, 1.2, 1.8]); to[k] = q[k] + *r.pick(&[0.05, 0.2, 0.6, 1.2, 1.8]); }
+        // zero steps: a from/to entry equal to the current value is still one of the twelve candidates
+        if r.chance(0.3) { let k = r.below(6); from[k] = q[k]; if r.chance(0.3) { to[(k + 2) % 6] = q[(k + 2) % 6]; } sc.fam.push_str("/zero-step"); }
         let pool = *r.pick(&[1usize, 2, 4, 16]);
         let mut l = Line::new("C14", &sc.fam, "offs");
         sc.ks.encode(&mut l);
@@ -267,7 +308,7 @@ pub fn c14(seed: u64, n: usize) {
 }
 
 // ---------------------------------------------------------------- C11 robot with shape
-use rs_opw_kinematics::constraints::Constraints;
+
 use rs_opw_kinematics::kinematics_with_shape::KinematicsWithShape;
 
 pub struct Kws { pub kws: KinematicsWithShape, pub ks: KSpec, pub fam: String }
@@ -299,7 +340,7 @@ pub fn gen_kws(r: &mut Rng, q: &Joints, force_cons: Option<([f64; 6], [f64; 6], 
         let pose = Isometry3::from_parts((anchor + off).into(), rand_quat(r));
         env.push(CollisionBody { mesh: if r.chance(0.3) { plate_mesh(r.range(0.3, 1.0) as f32, [0.0; 3]) } else { rand_mesh(r, 0.08) }, pose: pose.cast::<f32>() });
     }
-    let c = Constraints::new(cons.0, cons.1, cons.2);
+    let c = crate::gen::make_constraints(&cons.0, &cons.1, cons.2);
     let ctor = r.below(2);
     let (kws, fam) = if ctor == 0 {
         let first = r.chance(0.5);
@@ -340,23 +381,37 @@ pub fn c11(seed: u64, n: usize) {
             }
             l.emit();
         }
-        if i % 2 == 0 {
-            // delegation of forward, link poses, limits, singularity; placement of the body meshes
-            let mut l = Line::new("C11", &k.fam, "kwsd");
-            k.ks.encode(&mut l);
-            l.j6(&q).arrow();
-            l.iso(&k.kws.forward(&q)).iso(&inner.forward(&q));
-            for p in k.kws.forward_with_joint_poses(&q).iter() { l.iso(p); }
-            for p in inner.forward_with_joint_poses(&q).iter() { l.iso(p); }
-            l.b(k.kws.kinematic_singularity(&q).is_some()).b(inner.kinematic_singularity(&q).is_some());
-            let c1 = k.kws.constraints().as_ref().unwrap(); let c2 = inner.constraints().as_ref().unwrap();
-            l.j6(&c1.from).j6(&c1.to).f(c1.sorting_weight).j6(&c2.from).j6(&c2.to).f(c2.sorting_weight);
-            let pr = k.kws.positioned_robot(&q);
-            l.n(pr.joints.len());
-            for pj in &pr.joints { l.iso(&pj.transform.cast::<f64>()); }
-            match &pr.tool { Some(t) => { l.n(1).iso(&t.transform.cast::<f64>()); } None => { l.n(0); } }
-            l.n(pr.environment.len());
-            l.emit();
-        }
+        if i % 2 == 0 { emit_kwsd("C11", &k, &q); }
+    }
+    // "not reported colliding" rests on the verdicts of the same robot body: scenes with the brute-force oracle table
+    coll_cases("C11", &mut r, (n / 4).max(20));
+}
+
+/// delegation of forward, link poses, limits, singularity; placement of the body meshes
+pub fn emit_kwsd(prop: &str, k: &Kws, q: &Joints) {
+    let inner = k.kws.kinematics.clone();
+    let mut l = Line::new(prop, &k.fam, "kwsd");
+    k.ks.encode(&mut l);
+    l.j6(q).arrow();
+    l.iso(&k.kws.forward(q)).iso(&inner.forward(q));
+    for p in k.kws.forward_with_joint_poses(q).iter() { l.iso(p); }
+    for p in inner.forward_with_joint_poses(q).iter() { l.iso(p); }
+    l.b(k.kws.kinematic_singularity(q).is_some()).b(inner.kinematic_singularity(q).is_some());
+    let c1 = k.kws.constraints().as_ref().unwrap(); let c2 = inner.constraints().as_ref().unwrap();
+    l.j6(&c1.from).j6(&c1.to).f(c1.sorting_weight).j6(&c2.from).j6(&c2.to).f(c2.sorting_weight);
+    let pr = k.kws.positioned_robot(q);
+    l.n(pr.joints.len());
+    for pj in &pr.joints { l.iso(&pj.transform.cast::<f64>()); }
+    match &pr.tool { Some(t) => { l.n(1).iso(&t.transform.cast::<f64>()); } None => { l.n(0); } }
+    l.n(pr.environment.len());
+    l.emit();
+}
+
+/// robots with shape are one more wrapper around base * robot * tool: both constructors, under another property's label
+pub fn kwsd_cases(prop: &str, r: &mut Rng, n: usize) {
+    for _ in 0..n {
+        let q = rand_joints(r, 2.0);
+        let k = gen_kws(r, &q, None);
+        emit_kwsd(prop, &k, &q);
     }
 }
